@@ -604,6 +604,44 @@ func (g *eng) addrParse(t string) {
 		tag += "-" + strings.Fields(ans)[2]
 	}
 	g.e.Op(fmt.Sprintf("addr.p %s %s %s", hx(t), oi, oo), ans, tag)
+	if err == nil {
+		g.addrDenotes("addr", t, t, a)
+	}
+}
+
+// addrDenotes: an accepted "<ia>,<host>" text denotes the returned address (IA by the
+// independent denotation, host = named service or the IP literal Go's netip reads).
+func (g *eng) addrDenotes(kind, whole, t string, a addr.Addr) {
+	i := strings.IndexByte(t, ',')
+	good := i >= 0
+	if good {
+		d, dok := denoteIA(t[:i])
+		good = dok && d == uint64(a.IA)
+	}
+	if good {
+		h := t[i+1:]
+		switch a.Host.Type() {
+		case addr.HostTypeSVC:
+			want := map[string]addr.SVC{"DS": addr.SvcDS, "CS": addr.SvcCS, "Wildcard": addr.SvcWildcard}
+			base, m := h, addr.SVC(0)
+			if strings.HasSuffix(h, "_A") {
+				base = strings.TrimSuffix(h, "_A")
+			} else if strings.HasSuffix(h, "_M") {
+				base, m = strings.TrimSuffix(h, "_M"), addr.SVCMcast
+			}
+			w, ok := want[base]
+			good = ok && w|m == a.Host.SVC()
+		case addr.HostTypeIP:
+			ip, err := netip.ParseAddr(h)
+			good = err == nil && ip == a.Host.IP()
+		default:
+			good = false
+		}
+	}
+	if !good {
+		g.bad(kind+"-accepts-wrong", "parser accepted text that does not denote the returned address",
+			map[string]any{"text": whole, "ia": uint64(a.IA), "host": a.Host.String()})
+	}
 }
 
 func (g *eng) addrPortParse(t string) {
@@ -623,6 +661,26 @@ func (g *eng) addrPortParse(t string) {
 		tag = "ap.p/" + ans[4:]
 	}
 	g.e.Op(fmt.Sprintf("ap.p %s %s %s", hx(t), oi, oo), ans, tag)
+	if err == nil {
+		// accepted => "[<ia>,<host>]:<port>" (or "<ia>,<host>:<port>" without colons in the host)
+		// with a decimal port <= 65535 that is the returned one
+		j := strings.LastIndexByte(t, ':')
+		good := j >= 0
+		if good {
+			d, dok := denoteISD(t[j+1:]) // 16-bit decimal
+			good = dok && d == uint64(port)
+		}
+		if good {
+			h := t[:j]
+			if strings.HasPrefix(h, "[") && strings.HasSuffix(h, "]") {
+				h = h[1 : len(h)-1]
+			}
+			g.addrDenotes("addrport", t, h, a)
+		} else {
+			g.bad("addrport-accepts-wrong", "ParseAddrPort accepted text whose port does not denote the returned port",
+				map[string]any{"text": t, "port": port})
+		}
+	}
 }
 
 func (g *eng) fullAddr(ia addr.IA, h addr.Host, port uint16) {
